@@ -4,23 +4,120 @@ use crate::tcommon::*;
 use crate::Emit;
 use acpi_tables::facs::FACS;
 
+/// width in bytes of the k-th assignable public field
+const WIDTHS: [u32; 7] = [4, 4, 4, 4, 8, 1, 4];
+
+/// `t.<k-th assignable public field> = (v as uN).into()`
+fn assign(t: &mut FACS, k: u64, v: u64) {
+    match k {
+        0 => t.hardware_signature = (v as u32).into(),
+        1 => t.waking = (v as u32).into(),
+        2 => t.lock = (v as u32).into(),
+        3 => t.flags = (v as u32).into(),
+        4 => t.x_waking = v.into(),
+        5 => t.version = v as u8,
+        6 => t.ospm_flags = (v as u32).into(),
+        _ => panic!("harness: bad facs field"),
+    }
+}
+
 pub fn run(case: &Sx, out: &mut Vec<Ev>) {
     let c = case.list();
     if !c[0].list().is_empty() {
         panic!("harness: FACS::new takes no argument");
     }
-    let t = FACS::new();
+    let mut t = FACS::new();
     for op in &c[1..] {
         if let Sx::A(_) = op {
             out.push(image(&t));
             continue;
         }
-        panic!("harness: FACS has no operation");
+        let o = op.list();
+        match o[0].num() {
+            10 => assign(&mut t, o[1].num(), o[2].num()),
+            _ => panic!("harness: bad facs op"),
+        }
+        out.push(Ev::Num(0));
     }
 }
 
-pub fn gen(_tier: &str, rng: &mut Rng, emit: &mut Emit) {
+fn assign_op(k: u64, v: u64) -> Sx {
+    l(vec![a(10), a(k), a(v)])
+}
+
+fn max_of(k: u64) -> u64 {
+    let w = WIDTHS[k as usize];
+    if w == 8 {
+        u64::MAX
+    } else {
+        (1u64 << (8 * w)) - 1
+    }
+}
+
+/// non-zero in every byte
+fn dense_val(rng: &mut Rng, k: u64) -> u64 {
+    let mut v = 0u64;
+    for i in 0..WIDTHS[k as usize] {
+        v |= rng.range(1, 255) << (8 * i);
+    }
+    v
+}
+
+pub fn gen(tier: &str, rng: &mut Rng, emit: &mut Emit) {
     // the constructor has no argument: one case, observed once and twice
     emit.case(29, history(rng, l(vec![]), vec![]));
     emit.case(29, l(vec![l(vec![]), a(1), a(1)]));
+    // every assignable field alone: boundary values, each single byte set, high-half-only values of the 64-bit field
+    for k in 0..7u64 {
+        let w = WIDTHS[k as usize] as u64;
+        let m = max_of(k);
+        let mut vals = vec![0, 1, m, m - 1, m >> 1, (m >> 1) + 1];
+        for i in 0..w {
+            vals.push(0xffu64 << (8 * i));
+            vals.push(0x01u64 << (8 * i));
+        }
+        if w == 8 {
+            vals.extend([0xffff_ffff_0000_0000, 0x0000_0001_0000_0000, 0x8000_0000_0000_0000, rng.val(32) << 32, 0x0000_0000_ffff_ffff]);
+        }
+        for _ in 0..4 {
+            vals.push(dense_val(rng, k));
+        }
+        for v in vals {
+            emit.case(29, history(rng, l(vec![]), vec![assign_op(k, v)]));
+        }
+        let (v1, v2) = (dense_val(rng, k), dense_val(rng, k));
+        emit.case(29, history(rng, l(vec![]), vec![assign_op(k, v1), assign_op(k, v2)]));
+    }
+    // all fields at once with distinct dense values: declaration order, reverse, shuffled; all at maximum
+    for round in 0..(if tier == "thorough" { 300 } else { 60 }) {
+        let mut ops: Vec<Sx> = (0..7u64).map(|k| assign_op(k, dense_val(rng, k))).collect();
+        match round % 3 {
+            0 => {}
+            1 => ops.reverse(),
+            _ => {
+                for i in (1..ops.len()).rev() {
+                    let j = rng.below(i as u64 + 1) as usize;
+                    ops.swap(i, j);
+                }
+            }
+        }
+        emit.case(29, history(rng, l(vec![]), ops));
+    }
+    emit.case(29, history(rng, l(vec![]), (0..7u64).map(|k| assign_op(k, max_of(k))).collect()));
+    // random assignments with repetitions: the last writer wins
+    for _ in 0..(if tier == "thorough" { 2000 } else { 300 }) {
+        let len = rng.range(1, 40);
+        let ops = (0..len)
+            .map(|_| {
+                let k = rng.below(7);
+                let v = match rng.below(6) {
+                    0 => 0,
+                    1 => max_of(k),
+                    _ => rng.val(8 * WIDTHS[k as usize]),
+                };
+                assign_op(k, v)
+            })
+            .collect();
+        emit.case(29, history(rng, l(vec![]), ops));
+    }
 }
